@@ -942,7 +942,7 @@ impl Formatter {
                 self.writer.write("f\"");
                 for part in parts {
                     match part {
-                        FStringPart::Literal(s) => self.writer.write(s),
+                        FStringPart::Literal(s) => self.writer.write(&escape_fstring_literal(s)),
                         FStringPart::Expr(expr) => {
                             self.writer.write("{");
                             self.format_expr(&expr.node);
@@ -1127,6 +1127,19 @@ impl Formatter {
             }
         }
     }
+}
+
+/// Escape the literal part of an f-string (braces are doubled, the delimiter is always `"`)
+fn escape_fstring_literal(s: &str) -> String {
+    let mut result = String::new();
+    for c in s.chars() {
+        match c {
+            '{' => result.push_str("{{"),
+            '}' => result.push_str("}}"),
+            c => result.push_str(&escape_string(&c.to_string())),
+        }
+    }
+    result
 }
 
 /// Escape special characters in a string
